@@ -164,6 +164,10 @@ Definition after_plte (c : chunk) : bool :=
   cname_eqb (c_name c) name_bKGD || cname_eqb (c_name c) name_hIST || cname_eqb (c_name c) name_tRNS
   || cname_eqb (c_name c) name_fcTL.
 
+(* chunks re-emitted after PLTE; a histogram only alongside the palette it belongs to *)
+Definition write_special (hd : ihdr) (c : chunk) : bool :=
+  after_plte c && (negb (cname_eqb (c_name c) name_hIST) || is_indexed (ctype hd)).
+
 Fixpoint write_frames (fs : list frame) (seq : Z) : list Z :=
   match fs with
   | [] => []
@@ -193,7 +197,7 @@ Definition output (p : pngdata) : list Z :=
     | RGB (Some (r, g, b)) => write_png_block name_tRNS (to_be16 r ++ to_be16 g ++ to_be16 b)
     | _ => []
     end in
-  let specials := List.filter after_plte aux_pre in
+  let specials := List.filter (write_special hd) aux_pre in
   let pre2 := flat_map (fun c => write_png_block (c_name c) (c_data c)) specials in
   let seq0 := lenZ (List.filter (fun c => cname_eqb (c_name c) name_fcTL) specials) in
   PNG_SIG ++ write_png_block name_IHDR ihdr_data ++ pre1 ++ key ++ pre2
